@@ -38,6 +38,10 @@ def handle (op : String) (args : List String) : String :=
     | "/", xs => exRat (divAll xs)
     | "1+", [a] => okRat (add a 1)
     | "1-", [a] => okRat (sub a 1)
+    | "incf", [a] => okRat (add a 1)
+    | "incf", [a, b] => okRat (add a b)
+    | "decf", [a] => okRat (sub a 1)
+    | "decf", [a, b] => okRat (sub a b)
     | "abs", [a] => okRat (absR a)
     | "floor", [a] => exQR (floorDiv a 1)
     | "floor", [a, b] => exQR (floorDiv a b)
